@@ -16,7 +16,7 @@ from . import c09_attach as ca
 from . import c09_tables
 
 PROPERTY = 'C09'
-LEAN_TARGETS = ['CpProofs.C09', 'drv_c09']
+LEAN_TARGETS = ['CpProofs.C09', 'CpProofs.C09Attach', 'CpProofs.C09Sorted', 'CpProofs.C09Heap', 'drv_c09']
 DRIVER = 'drv_c09'
 THEOREMS = [
     'CpProofs.C09.sortByPrio_perm',
@@ -37,6 +37,35 @@ THEOREMS = [
     'CpProofs.C09.C09_at_most_once',
     'CpProofs.C09.request_zero_present',
     'CpProofs.C09.run_fails_iff',
+    # where hook point / priority / fail-safe flag come from (lean/CpModel/HookAttach.lean)
+    'CpProofs.C09.mkHook_precedence',
+    'CpProofs.C09.mkHook_explicit',
+    'CpProofs.C09.toolPriority_precedence',
+    'CpProofs.C09.toolPriority_config_wins',
+    'CpProofs.C09.setupTool_plain',
+    'CpProofs.C09.setupTool_handler',
+    'CpProofs.C09.setupTool_caching',
+    'CpProofs.C09.setupTool_error',
+    'CpProofs.C09.setupTool_session',
+    'CpProofs.C09.exitToolbox_hooks',
+    'CpProofs.C09.contribution_disabled',
+    'CpProofs.C09.contribution_one',
+    'CpProofs.C09.toolmapOf_nodup',
+    'CpProofs.C09.attachAll_hooks',
+    'CpProofs.C09.requestNamespaces_hooks_first',
+    'CpProofs.C09.attachAll_hooks_then_tools',
+    'CpProofs.C09.defaultTools_ok',
+    'CpProofs.C09.default_plain_tool',
+    'CpProofs.C09.default_priorities_numeric',
+    # what sorted() on Hook.__lt__ gives; link to the natural-number priorities of the pipeline model
+    'CpProofs.C09.sortedHooks_numeric',
+    'CpProofs.C09.sortedHooks_typeError_iff',
+    'CpProofs.C09.sortedHooks_perm',
+    'CpProofs.C09.sortBy_map',
+    'CpProofs.C09.run_numeric',
+    # per-request copies of the class-level HookMap
+    'CpProofs.C09.serveAll_no_alias',
+    'CpProofs.C09.class_level_unchanged',
 ]
 TRUSTED_BASE = [
     'Python semantics transcribed by hand: shared-iterator `filter`, exception replacement inside `except`/`finally` '
